@@ -110,3 +110,53 @@ theorem tokenNextBy_spec {upper : Text → Text} {ks : List Node} {i : List Cls}
   exact ⟨h1, h2, h3⟩
 
 end Sql
+
+namespace Sql
+
+theorem tokenMatchingFwd_go_none (f : Node → Bool) :
+    ∀ (l : List Node) (i : Nat), tokenMatchingFwd.go f (i + l.length) l i = none → ∀ x ∈ l, f x = false := by
+  intro l
+  induction l with
+  | nil => intro i _ x hx; cases hx
+  | cons y rest ih =>
+    intro i h x hx
+    simp only [tokenMatchingFwd.go, List.length_cons] at h
+    rw [if_neg (by omega)] at h
+    split at h
+    · cases h
+    · rename_i hf
+      cases hx with
+      | head => simpa using hf
+      | tail _ hx =>
+        have e : i + (rest.length + 1) = (i + 1) + rest.length := by omega
+        rw [e] at h
+        exact ih (i + 1) h x hx
+
+/-- forward search to the end of the list without a hit: nothing from `start` on satisfies `f` -/
+theorem tokenMatchingFwd_none {ks : List Node} {f : Node → Bool} {start : Nat}
+    (h : tokenMatchingFwd ks f start none = none) : ∀ i x, start ≤ i → ks[i]? = some x → f x = false := by
+  intro i x hi hx
+  unfold tokenMatchingFwd at h
+  simp only [Option.getD_none] at h
+  have hlen : i < ks.length := (List.getElem?_eq_some_iff.1 hx).1
+  have e : ks.length = start + (ks.drop start).length := by simp [List.length_drop]; omega
+  rw [e] at h
+  refine tokenMatchingFwd_go_none f _ _ h x ?_
+  have : (ks.drop start)[i - start]? = some x := by
+    rw [List.getElem?_drop, show start + (i - start) = i by omega]; exact hx
+  exact List.mem_of_getElem? this
+
+theorem tokenNextBy_none {upper : Text → Text} {ks : List Node} {i : List Cls} {m : List MPat} {t : TArg} {start : Nat}
+    (h : tokenNextBy upper ks i m t start = none) :
+    ∀ j x, start ≤ j → ks[j]? = some x → imt upper x i m t = false := by
+  unfold tokenNextBy at h
+  exact tokenMatchingFwd_none h
+
+/-- the hit of `token_next_by` is the *first* one from `start` -/
+theorem tokenNextBy_first {upper : Text → Text} {ks : List Node} {i : List Cls} {m : List MPat} {t : TArg}
+    {start j : Nat} {k : Node} (h : tokenNextBy upper ks i m t start = some (j, k)) :
+    ∀ j' x, start ≤ j' → j' < j → ks[j']? = some x → imt upper x i m t = false := by
+  unfold tokenNextBy at h
+  exact (tokenMatchingFwd_spec h).2.2.2
+
+end Sql
